@@ -1384,7 +1384,7 @@ def _set_decorators() -> Dict[str, Callable[[_FN], _FN]]:
 
     def update(fn):
         def update(self, value):
-            for item in value:
+            for item in list(value):
                 self.add(item)
 
         _tidy(update)
@@ -1394,7 +1394,7 @@ def _set_decorators() -> Dict[str, Callable[[_FN], _FN]]:
         def __ior__(self, value):
             if not _set_binops_check_strict(self, value):
                 return NotImplemented
-            for item in value:
+            for item in list(value):
                 self.add(item)
             return self
 
@@ -1403,7 +1403,7 @@ def _set_decorators() -> Dict[str, Callable[[_FN], _FN]]:
 
     def difference_update(fn):
         def difference_update(self, value):
-            for item in value:
+            for item in list(value):
                 self.discard(item)
 
         _tidy(difference_update)
@@ -1413,7 +1413,7 @@ def _set_decorators() -> Dict[str, Callable[[_FN], _FN]]:
         def __isub__(self, value):
             if not _set_binops_check_strict(self, value):
                 return NotImplemented
-            for item in value:
+            for item in list(value):
                 self.discard(item)
             return self
 
